@@ -24,6 +24,8 @@ import (
 	"github.com/foxcpp/maddy/framework/log"
 	"github.com/foxcpp/maddy/framework/module"
 	smtpendp "github.com/foxcpp/maddy/internal/endpoint/smtp"
+	_ "github.com/foxcpp/maddy/internal/modify" // modify.replace_rcpt
+	_ "github.com/foxcpp/maddy/internal/table"  // table.static
 	"github.com/foxcpp/maddy/internal/zzverif/mx"
 	"verifkit/prng"
 	"verifkit/rep"
@@ -392,6 +394,8 @@ func TestVerif(t *testing.T) {
 func runCase(t *testing.T, r *rep.Reporter, c *rep.Case, i int) {
 	p := prng.New(r.Seed(), uint64(i), "c03")
 	sc := genScenario(p, i)
+	// recipient rewriting by static replace_rcpt tables: its own stream, drawn after the session
+	genAlias(prng.New(r.Seed(), uint64(i), "c03-alias"), sc)
 	serverLog.reset()
 	rg, err := buildRig(sc, strconv.Itoa(i))
 	if err != nil {
@@ -512,9 +516,17 @@ func runCase(t *testing.T, r *rep.Reporter, c *rep.Case, i int) {
 		r.Distinct("features", f)
 	}
 	r.Count("sessions", 1)
+	if len(sc.Alias) > 0 {
+		r.Count("alias_sessions", 1)
+		r.Count("alias_entries", int64(len(sc.Alias)))
+		for _, e := range sc.Alias {
+			r.Count("alias_entries_"+e.Scope, 1)
+			r.Distinct("alias_kinds", e.Scope+"/"+e.Kind)
+		}
+	}
 	r.Count("sessions_"+sc.kindTag(), 1)
 	r.Count("session_end_"+sc.End, 1)
-	if i < 3 {
+	if i < 3 || (len(sc.Alias) > 0 && i < 12) {
 		r.Sample(map[string]any{"kind": sc.kindTag(), "config": sc.Config, "faults": sc.Faults, "transcript": cl.transcript, "target_log": rg.lg.Strings(40)})
 	}
 	c.Done(shapeOf(sc, rg, eng), nontrivial(rg, mark))
